@@ -286,7 +286,7 @@ def gen_recognize(rng, c, avail):
     elif r < 0.6:
         ops.append(('rscalar', rng.sample(['str', 'int', 'float', 'bool', 'none'], rng.randint(0, 2))))
     elif r < 0.7:
-        ops.append(('rraise',))
+        ops.append(('rraise', 'bare') if rng.random() < 0.5 else ('rraise',))
     elif r < 0.8 and names:
         ops.append(('rvalnot', rng.choice(names), rng.choice(['special', 1])))
     else:
